@@ -323,4 +323,26 @@ example :
     holdsSeq toyCodec [⟨1, [7], false⟩, ⟨0x80 ||| 0x22, [1, 2, 3], false⟩, ⟨3, [], false⟩]
       ⟨[(1, [7])], .encrypted, List.replicate 8 0⟩ = false := by decide
 
+/-! ### Empty reads -/
+
+/-- **An empty read inside a length field or a body is skipped** (`io.ReadFull` and the body loop read on
+after `(0, nil)`): one step of the induction — an empty chunk in front of the chunks a multi-byte read
+consumes changes neither the bytes read, nor what is left, nor whether the read completes.
+PARTIAL: the full statement — `C01_main` for chunk lists with empty chunks at every position except where a
+type byte is read (there `readPacketType` reports `(0, nil)` as a short read, `RErr.shortType`) — is not
+proved; the hypothesis `hne` of `C01_main` excludes empty chunks.  The `empty-read` cases of every run drive
+the real reader through such streams, and the examples below evaluate the model on one. -/
+theorem C01_empty_read_skipped_partial (cs : List Bytes) (n : Nat) :
+    readFullChunks ([] :: cs) (n + 1) = readFullChunks cs (n + 1) := by
+  simp [readFullChunks]
+
+/-- A handshake with a 3-byte body whose length field and body are interrupted by empty reads, then a
+heartbeat: both packets are decoded and nothing is left. -/
+example :
+    holds [⟨1, [7, 8, 9], false⟩, ⟨3, [], false⟩]
+      (readAll toyCodec 4 ⟨[[1], [0, 0], [], [0, 3], [], [7], [], [], [8, 9], [3]], .eof⟩) = true := by decide
+/-- …whereas an empty read where a type byte is expected ends the run with `shortType` (the documented
+assumption "a transport never answers (0, nil) to the 1-byte type read"). -/
+example : (readAll toyCodec 4 ⟨[[], [3]], .eof⟩).stop = .shortType := by decide
+
 end Tunnox.C01
